@@ -106,6 +106,16 @@ def run(ctx):
                 g[pos] ^= 1 << rng.randrange(8)
                 yield ("c04", {"m": l["m"], "cls": l["cls"], "id": l["id"], "name": l["name"], "names": None, "route": "lenient", "f": bytes(g).hex(),
                                "P": None, "kwargs": None, "_k": "len:%d:%d" % (li, pos)})
+        # constructions whose checksum bytes look like something else (line ends, sync characters): steered through the last two payload bytes
+        from ..common import STEER_TARGETS, steer
+
+        for (c, i, m) in ((0x77, 0x01, 0), (0x04, 0x02, 0), (0x06, 0x08, 1), (0x0A, 0x04, 0)):
+            nm = names_for(defs, c, i, [])
+            for n in (6, 30):
+                for tgt in STEER_TARGETS:
+                    P = steer(c, i, rng.randbytes(n), tgt)
+                    yield ("c04", {"m": m, "cls": c, "id": i, "name": "%02x%02x" % (c, i), "names": nm, "route": "payload", "P": P.hex(), "kwargs": None,
+                                   "_k": "steer:%02x%02x:%d:%s" % (c, i, n, tgt.hex())})
         # payloads around the 16-bit length limit: construction must be refused or the frame must be well-formed
         inf = [l for l in lays if l["name"] in ("INF-NOTICE", "RXM-PMP-V1", "MON-VER") and l["c"] == 1][:3]
         for l in inf:
